@@ -169,6 +169,7 @@ fn run_worker(p: &TreeProp, cfg: &RunCfg, w: usize, n: u64, corpus: &[Case]) -> 
   let total = corpus.len() as u64 + n;
   for k in 0..total {
     let case = if (k as usize) < corpus.len() { corpus[k as usize].clone() } else { (p.gen)(&mut rng, cfg.thorough) };
+    inflight(|| case_json(&case));
     let oi = run_case_impl(&case);
     let om = run_case_model(&mut d, &case);
     r.cases += 1;
